@@ -108,6 +108,11 @@ impl SnmpV3ClientSocket {
         self.priv_key = pk;
         Ok(())
     }
+    /// Seed the salt counter of the installed privacy key (verification hook)
+    #[cfg(feature = "verif")]
+    fn verif_set_salt(&mut self, value: u64) {
+        crate::verif::set_salt(&mut self.priv_key, value)
+    }
     /// Get socket's file descriptor
     fn get_fd(&self) -> PyResult<i32> {
         Ok(self.io.as_raw_fd())
